@@ -242,7 +242,7 @@ pub fn exec(adf: &mut Adf, call: &Call) -> Result<Raw, String> {
                         let a = pick(*a, &issued);
                         adf.bdd.restrict(a, Var(*v as usize % n.max(1)), *val)
                     }
-                    Op::Node(..) | Op::Serde | Op::Rebuild | Op::AdfNodeList | Op::AdfSerde | Op::FixImport | Op::SerdeNoFix => continue,
+                    Op::Node(..) | Op::Serde | Op::Rebuild | Op::AdfNodeList | Op::AdfSerde | Op::FixImport | Op::SerdeNoFix | Op::RebuildStream | Op::SerdePartialCache(_) => continue,
                 };
                 if n <= 10 {
                     out.push((r.value(), sut::table_of(&adf.bdd, r, n)?));
